@@ -62,6 +62,19 @@ fn lens() -> Vec<String> {
             Ok(Err(e)) => format!("LEN vec_unit {n} err {}", err_class(&e)),
         });
     }
+    // fixed-size arrays of zero-width elements: the length is a const generic, the array costs no memory
+    fn arr<const N: usize>(out: &mut Vec<String>) {
+        let r = guarded(move || serialize_to_byte_vec(&[(); N]));
+        out.push(match r {
+            Err(p) => format!("LEN arr_unit {N} panic {p}"),
+            Ok(Ok(b)) => format!("LEN arr_unit {N} ok {}", hex(&b)),
+            Ok(Err(e)) => format!("LEN arr_unit {N} err {}", err_class(&e)),
+        });
+    }
+    arr::<{ 1usize << 31 }>(&mut out);
+    arr::<{ (1usize << 31) + 1 }>(&mut out);
+    arr::<{ 1usize << 32 }>(&mut out);
+    arr::<{ usize::MAX >> 1 }>(&mut out);
     // iterators whose exact size hint exceeds i32::MAX
     for hint in [(1usize << 31) - 1, 1 << 31, 1 << 32, usize::MAX] {
         let r = guarded(move || {
